@@ -949,6 +949,16 @@ def _generator_clauses(ctx: Ctx):
                       f"rust_commons.get_extended_properties gives {sname}.{k} the declaration of {got.get(k)!r}, the "
                       f"nearest one is {exp.get(k)!r}: the field would get the base structure's type / optionality",
                       flatten.P_RC, None)
+    from ..genlint import cross_run_state
+    nstate, hits = cross_run_state(idx, "generator/plugins/rust/")
+    for rel, construct, msg, ln in hits:
+        ctx.fail("generator-no-cross-run-state", construct, msg, rel, ln)
+    ctx.ok("generator-no-cross-run-state", {"containers_examined": nstate})
+    names = flatten.fold_rust_inherited_literal(idx)
+    ok = len(set(names)) == 1 and isinstance(names[0], str) and names[0] and not names[0].startswith("<")
+    ctx.check(ok, "generator-literal-name-stable", "inherited-literal",
+              f"an anonymous literal on a base-structure property gets the struct names {names} through two inheriting "
+              "structures and the base: the field type must be the same non-empty struct name each time", flatten.P_RC, None)
     ex = flatten.fold_rust_extras(idx)
     gate = '#[cfg(feature = "proposed")]'
     for (dep, prop), lines in sorted(ex.items()):
